@@ -118,8 +118,7 @@ var purePkgs = []string{"strings.", "strconv.", "unicode.", "unicode/utf8.", "en
 	"reflect.TypeOf", "crypto/md5.Sum", "(encoding/binary.bigEndian).Uint", "(encoding/binary.littleEndian).Uint", "bytes.Compare", "bytes.Equal", "fmt.Sprintf", "fmt.Sprint", "math/bits.", "path.", "net.ParseIP", "time.Since", "time.Until",
 	"(time.Duration).", "(time.Time).", "sort.SearchInts", "errors.Is", "errors.Unwrap", "(net.IP).String", "(net.IP).To4", "(net.IP).To16", "(net.IP).Equal", "(*net.IPAddr).String",
 	"(github.com/datastax/go-cassandra-native-protocol/primitive.ProtocolVersion).", "(github.com/datastax/go-cassandra-native-protocol/primitive.ConsistencyLevel).",
-	"(github.com/datastax/go-cassandra-native-protocol/primitive.OpCode).", "(github.com/datastax/go-cassandra-native-protocol/primitive.ErrorCode).",
-	"github.com/datastax/go-cassandra-native-protocol/frame.NewFrame"}
+	"(github.com/datastax/go-cassandra-native-protocol/primitive.OpCode).", "(github.com/datastax/go-cassandra-native-protocol/primitive.ErrorCode)."}
 
 var noEffect = []string{"(*go.uber.org/zap.Logger).Debug", "(*go.uber.org/zap.Logger).Info", "(*go.uber.org/zap.Logger).Warn", "(*go.uber.org/zap.Logger).Error",
 	"(*go.uber.org/zap.Logger).Fatal", "(*go.uber.org/zap.Logger).Sugar", "(*go.uber.org/zap.SugaredLogger).", "(*go.uber.org/zap.Logger).Check", "(*go.uber.org/zap.Logger).Named", "(*go.uber.org/zap.Logger).With"}
